@@ -177,3 +177,67 @@ func specNoOperands(n ast.Node) bool {
 }
 
 func specHasHandler(op string) bool { _, ok := opcodeEvalFns[op]; return ok }
+
+// ---------------------------------------------------------------------------
+// Pass-1 instruction handlers (C03, C07): a statement either advances LOC by exactly the size the
+// table lookup gives for its mnemonic and its operands in the mode in force and emits one ocode
+// line, or changes nothing and leaves an error-level diagnostic. (Ghost call log.)
+// ---------------------------------------------------------------------------
+
+//@ func processArithmeticInst
+//@ props C03 C07
+//@ option no-panic-obligations
+//@ requires env != nil && env.Client != nil && env.AsmDB != nil
+//@ calls[mode@C03] (*ng_operand.OperandPegImpl).WithBitMode : arg1 == env.BitMode
+//@ calls[size@C03] (*asmdb.InstructionDB).FindMinOutputSize : arg1 == instName && vcSame(arg2, vcResult[ng_operand.Operands]("WithBitMode", 0))
+//@ ensures[loc@C03] vcCalled("Emit") ==> vcCalled("FindMinOutputSize") && env.LOC == old(env.LOC)+int32(vcResult[int]("FindMinOutputSize", 0))
+//@ ensures[loc.none@C03] !vcCalled("Emit") ==> env.LOC == old(env.LOC)
+//@ ensures[onebyte@C03] (instName == "MUL" || instName == "DIV" || instName == "IDIV") && vcCalled("Emit") ==> env.LOC == old(env.LOC)+1
+//@ ensures[nodrop@C07] vcCalled("Emit") || vcLoggedError()
+//@ assigns Pass1.LOC, ocodeClient.Ocodes, OperandPegImpl.bitMode, OperandType[]
+
+// (onebyte: the emitter answers MUL, DIV and IDIV from its table of operand-less mnemonics with exactly
+// one byte - codegen processOcode.ensures.noparam.len - so address assignment must count one byte.)
+
+//@ func processLogicalInst
+//@ props C03 C07
+//@ option no-panic-obligations
+//@ requires env != nil && env.Client != nil && env.AsmDB != nil
+//@ calls[mode@C03] (*ng_operand.OperandPegImpl).WithBitMode : arg1 == env.BitMode
+//@ calls[size@C03] (*asmdb.InstructionDB).FindMinOutputSize : arg1 == instName && vcSame(arg2, vcResult[ng_operand.Operands]("WithBitMode", 0))
+//@ ensures[loc@C03] vcCalled("Emit") ==> vcCalled("FindMinOutputSize") && env.LOC == old(env.LOC)+int32(vcResult[int]("FindMinOutputSize", 0))
+//@ ensures[loc.none@C03] !vcCalled("Emit") ==> env.LOC == old(env.LOC)
+//@ ensures[nodrop@C07] vcCalled("Emit") || vcLoggedError()
+//@ assigns Pass1.LOC, ocodeClient.Ocodes, OperandPegImpl.bitMode, OperandType[]
+
+//@ func processNOT
+//@ props C03 C07
+//@ option no-panic-obligations
+//@ requires env != nil && env.Client != nil && env.AsmDB != nil
+//@ calls[mode@C03] (*ng_operand.OperandPegImpl).WithBitMode : arg1 == env.BitMode
+//@ calls[size@C03] (*asmdb.InstructionDB).FindMinOutputSize : arg1 == "NOT" && vcSame(arg2, vcResult[ng_operand.Operands]("WithBitMode", 0))
+//@ ensures[loc@C03] vcCalled("Emit") ==> vcCalled("FindMinOutputSize") && env.LOC == old(env.LOC)+int32(vcResult[int]("FindMinOutputSize", 0))
+//@ ensures[loc.none@C03] !vcCalled("Emit") ==> env.LOC == old(env.LOC)
+//@ ensures[nodrop@C07] vcCalled("Emit") || vcLoggedError()
+//@ assigns Pass1.LOC, ocodeClient.Ocodes, OperandPegImpl.bitMode, OperandType[]
+
+//@ func processMOV
+//@ props C03 C07
+//@ option no-panic-obligations
+//@ requires env != nil && env.Client != nil && env.AsmDB != nil
+//@ calls[mode@C03] (*ng_operand.OperandPegImpl).WithBitMode : arg1 == env.BitMode
+//@ calls[size@C03] (*asmdb.InstructionDB).FindMinOutputSize : arg1 == "MOV" && vcSame(arg2, vcResult[ng_operand.Operands]("WithForceRelAsImm", 0))
+//@ ensures[loc@C03] vcCalled("Emit") ==> vcCalled("FindMinOutputSize") && env.LOC == old(env.LOC)+int32(vcResult[int]("FindMinOutputSize", 0))
+//@ ensures[loc.none@C03] !vcCalled("Emit") ==> env.LOC == old(env.LOC)
+//@ ensures[nodrop@C07] vcCalled("Emit") || vcLoggedError()
+//@ assigns Pass1.LOC, ocodeClient.Ocodes, OperandPegImpl.bitMode, OperandPegImpl.forceRelAsImm, OperandType[]
+
+// Operand-less mnemonics: one byte each on both sides (the emitter's table gives exactly one byte
+// for every mnemonic it holds: processOcode.ensures.noparam).
+
+//@ func processNoParam
+//@ props C03 C07
+//@ requires env != nil && env.Client != nil
+//@ ensures[loc@C03] env.LOC == old(env.LOC)+1
+//@ ensures[emit@C07] vcCalled("Emit")
+//@ assigns Pass1.LOC, ocodeClient.Ocodes
